@@ -1,0 +1,20 @@
+//go:build verif
+
+package immutable
+
+import "github.com/openGemini/openGemini/lib/fragment"
+
+// VerifC20IterSegments drives the segment iteration of a Location over the fragment (segment)
+// ranges a sparse-index scan left: SetFragmentRanges, then hasNext / nextSegment(false) until the
+// location is exhausted (or limit positions were visited). It returns the positions visited.
+func VerifC20IterSegments(frs fragment.FragmentRanges, ascending bool, limit int) []int {
+	l := NewLocation(nil, &ReadContext{Ascending: ascending})
+	l.meta = &ChunkMeta{}
+	l.SetFragmentRanges(frs)
+	var out []int
+	for l.hasNext() && len(out) < limit {
+		out = append(out, l.segPos)
+		l.nextSegment(false)
+	}
+	return out
+}
